@@ -76,6 +76,12 @@ def fn_at(text_bytes, fn_index, off):
     for (s, e, name) in fn_index:
         if s <= off < e and (best is None or s >= best[0]):
             best = (s, e, name)
+    if best is None:
+        # a diagnostic on a function's own header (`pub fn name(..)`) starts before the `fn` keyword: same line
+        le = text_bytes.find(b"\n", off)
+        for (s, e, name) in fn_index:
+            if off <= s < (le if le >= 0 else len(text_bytes)):
+                return name
     return best[2] if best else "?"
 
 
